@@ -197,7 +197,8 @@ func runC02(r *mon.Run) {
 
 func runC07(r *mon.Run) {
 	r.Rule = "cases: the union of the C01/C09/C10/C11/C12 workloads (Add, Sub, Mul, Quo, Abs, Neg, Round, Rem, QuoInteger, Reduce, Sqrt, Cbrt, " +
-		"Exp, Ln, Log10, Pow, Quantize, context-aware parsing) with the carry families stressed; every finite result is checked against the " +
+		"Exp, Ln, Log10, Pow, Quantize, context-aware parsing) with the carry families stressed, plus coefficients of every length from 129 to " +
+		"12000 (quick) / 101000 (thorough) digits just above and below a power of ten; every finite result is checked against the " +
 		"context: digits (counted from the decimal text) <= Precision, adjusted exponent <= MaxExponent, exponent >= Etiny for non-zero " +
 		"values, non-negative coefficient, valid form, exponent 0 for QuoInteger. distinct_nontrivial = distinct cases whose exact " +
 		"result needed rounding, was subnormal or overflowed (as classified by the reference model), plus the transcendental cases."
@@ -248,6 +249,40 @@ func runC07(r *mon.Run) {
 		t.Count("op/parse")
 		if why := CheckFit(c, o); why != "" {
 			t.Fail("fit-mismatch", map[string]interface{}{"op": "parse", "ctx": c.String(), "s": s, "got": o.Res.FullString(), "why": why})
+		}
+	})
+	// long coefficients just above and just below a power of ten: every
+	// coefficient length from 129 digits up, where any estimate of the digit
+	// count from the bit length is most fragile
+	longTo := r.N(12000, 101000)
+	r.Parallel("fit-long", longTo-128, func(t *mon.T) {
+		j := t.Index + 129
+		c := dec.Ctx{P: int64(1 + t.Rng.Intn(20)), Emin: -200000 + 100000, Emax: 100000, Mode: gen.Mode(t.Rng)}
+		p := dec.Pow10(j)
+		var cf *big.Int
+		if t.Rng.Bool() {
+			cf = new(big.Int).Add(p, big.NewInt(t.Rng.Range(0, 99)))
+		} else {
+			cf = new(big.Int).Sub(p, big.NewInt(t.Rng.Range(1, 99)))
+		}
+		x := dec.D{Form: dec.Finite, Neg: t.Rng.Bool(), C: cf, E: -j + t.Rng.Range(-5, 5)}
+		op := []string{"round", "add", "mul", "quo", "abs"}[t.Rng.Intn(5)]
+		var y dec.D
+		switch op {
+		case "add":
+			y = dec.Zero(false, x.E)
+		case "mul", "quo":
+			y = dec.FromInt(1, 0)
+		}
+		o := CallArith(op, br.Context(c, 0), x, y)
+		t.Eval()
+		t.Count("fit-long")
+		if o.Err != nil {
+			t.Skip("error:fit-long")
+			return
+		}
+		if why := CheckFit(c, o); why != "" {
+			t.Fail("fit-mismatch", map[string]interface{}{"op": op, "ctx": c.String(), "coefficient_digits": dec.NumDigits(cf), "x": x.String(), "got": o.Res.String(), "why": why})
 		}
 	})
 	transcendentalFit(r)
